@@ -2,7 +2,7 @@
 From V.lib Require Import Base.
 From V.c04 Require Import C04Model C04AsmModel C04XrefModel.
 From V.c02 Require Import C02AggModel.
-From V.c03 Require Import C03Model C03LeafModel C03SencPassModel C03EncHistModel C03PfxModel C03MetaModel.
+From V.c03 Require Import C03Model C03LeafModel C03SencPassModel C03EncHistModel C03PfxModel C03MetaModel C03SgpdModel.
 Require Import ExtrOcamlBasic.
 Separate Extraction
   w64 decode_file_r decode_file_sr file_enc_w file_enc_sw enc_w enc_sw ebox efile eseg efrag
@@ -16,4 +16,5 @@ Separate Extraction
   decode_file_xr decode_file_xsr xtop passres picked_senc se_unparsed
   hfrag_agg hseg_agg hfile_agg hstep hop afile_seg_mode ob_wf aout
   pfxbox_r pfxbox_sr pfxval pfxval_size pfx_enc_w pfx_enc_sw word2_fixed wvtt_fixed ase_fixed
-  metabox_r metabox_sr metav meta_size.
+  metabox_r metabox_sr metav meta_size
+  sgpdbox_r sgpdbox_sr sgpdv sgentry sgpd_size.
